@@ -167,6 +167,15 @@ theorem refOk_xml {b : PyStr} (h : refOk b = true) : b.all isXmlChar = true := b
       decide
     · simp at h
 
+theorem valOk_xml {q : Nat} {v : PyStr} (h : ValOk q v) : v.all isXmlChar = true := by
+  induction h with
+  | nil => rfl
+  | chr c r h1 _ _ _ _ ih => simp [h1, ih]
+  | ref b r h1 _ _ ih =>
+    have hb := refOk_xml h1
+    simp only [List.all_cons, List.all_append, hb, ih, Bool.and_true, Bool.true_and]
+    decide
+
 theorem nameOk_xml {n : PyStr} (h : nameOk n = true) : n.all isXmlChar = true :=
   all_xml_of_all (fun _ => isNameChar_xml) (nameOk_all h)
 
@@ -180,8 +189,7 @@ theorem renderAttrs_xml {as : List Attr} (h : as.all attrLexOk = true) : (render
     obtain ⟨⟨⟨⟨_, hsep⟩, hkey⟩, hq⟩, hval⟩ := ha
     have h1 := all_xml_of_all (fun _ => isWs_xml) hsep
     have h2 := nameOk_xml hkey
-    have h3 : a.val.all isXmlChar = true :=
-      all_xml_of_all (fun c hc => by simp only [attrCharOk, Bool.and_eq_true] at hc; exact hc.1.1.1) hval
+    have h3 : a.val.all isXmlChar = true := valOk_xml (ValOk.of_check _ _ hval)
     have h4 : isXmlChar a.q = true := by rcases hq with h | h <;> rw [h] <;> decide
     simp only [renderAttrs, renderAttr, List.all_append, List.all_cons, List.all_nil, h1, h2, h3, h4, ih has,
       Bool.and_true, Bool.true_and]
